@@ -90,6 +90,39 @@ CLAIMED.update({
     ),
 })
 
+CLAIMED.update({
+    "C02": (
+        "path rules on the SSA of the six input parsers (found by signature) and the collect loop: never-after (all-or-nothing), must-pass-through (complete implies consumption), cycle rule with edge facts (progress), provenance of slice bounds (prefix locality), guard dominance of index sites",
+        "Structural necessary conditions decided on all paths: parsers are all-or-nothing, complete implies consumed, every collect-loop cycle progresses, with the timeout expired the loop only exits on an empty buffer, nothing a parser matches or consumes depends on len() of the whole input buffer, no unchecked prefix skip, guarded index sites, and the wait-for-more gate counts every parser's partial answer. Equality of event sequences over all partitions, the mutual consistency of the six parser languages and decoder behaviour are not decided.",
+        "Trusted: go/ssa. Stated weakening: a consumption loop counts as a consumption site (it is not proven to run at least once).",
+    ),
+    "C04": (
+        "set/reset pairing table filled from the emission sites of the code (value provenance), dominance and never-after rules on the Tty typestate of disengage/finalize/finish, sibling agreement over the mode togglers",
+        "Structural necessary conditions on all paths: every mode the screen can set has its reset emitted in disengage before Tty.Stop under allowed guards only; Drain, NotifyResize(nil) and the join dominate Stop, nothing is written after Stop, Close only in finalize after disengage, finalize only from finish, finish only through sync.Once; Resume re-applies the persistent mode fields; each toggler stores the persistent field and emits consistently under the lock. Whether reset strings undo set strings on a real terminal (database content) and history-dependent guards are not decided.",
+        "Assumes the documented Tty contract. Trusted: go/ssa, the twelve-row pairing table in checker/c04.go.",
+    ),
+    "C12": (
+        "constant extraction of the button/modifier table from the AST compared with the xterm protocol table; linear-form normalisation of the values handed to buildMouseEvent; guard rules on the press-flag stores",
+        "Table agreement and normalisation decided exhaustively on the code: button mask and six button codes, three modifier bits, clip as mandatory sanitiser with clamp values, SGR value-1 / motion bit cleared, X11 byte-33 coordinates and byte-32 button (sibling agreement of the two parsers), release and button-less motion clear the button bits, press flag set/cleared on the right edges, both introducers accepted. The press/drag/release protocol over report sequences and multi-digit parsing correctness are not decided.",
+        "Trusted: the xterm ctlseqs mouse encoding frozen in the checker; go/types constant evaluation.",
+    ),
+    "C16": (
+        "constant extraction of the ColorValues / ColorNames map literals compared with the xterm palette formula and an independent CSS colour-name table; provenance of FindColor's result; guard rules on validity gates",
+        "The table half is decided exhaustively over constants: all 256 palette entries, all 148 CSS/SVG colour keywords present with the reference value and no others, RGB-flagged constants equal their table entry. FindColor returns ColorDefault or a palette element and updates on strictly smaller distance; Hex/RGB/TrueColor gate on validity. Round-trips over 2^24 values and CIE76 optimality are numeric and not decided.",
+        "Trusted: golang.org/x/image/colornames (module cache) as the independent name table, the xterm 256-colour formula.",
+    ),
+    "C17": (
+        "Boolean normal-form comparison of encodeRune's failure predicate with CanDisplay's success predicate; lookup-order dominance; constant table comparison of the ACS names and Unicode glyphs; CFG order of the locale variables; who-may-read the fallback map",
+        "Structural necessary conditions: decision chain encoder → ACS → fallback → '?' by dominance on lookup results; CanDisplay is the logical negation of the failure predicate over the same three observations; ACS name table equals the terminfo(5) acsc assignment and the Rune constants are the right Unicode characters; buildAcsMap brackets glyphs and walks all pairs; LC_ALL/LC_CTYPE/LANG precedence and POSIX/C; the fallback map is never copied; registry normalisation and locking agree. What each charset encodes, width preservation and glyph fidelity are not decided.",
+        "Trusted: terminfo(5) acsc table and Unicode code points frozen in the checker.",
+    ),
+    "C20": (
+        "must-pass-through rules (clamp after offset write, relayout after mutation) with an infeasible-return refinement for local flags, guard normal forms of the window tests, loop-carried value rules on the remainder loops",
+        "Structural necessary conditions on all paths of views/view.go and views/boxlayout.go: every offset / limit / size write of ViewPort is followed by the matching Validate call; the clamps bound the offset by lim-size and 0 in that order; SetContent forwards only inside the four window tests with the documented translation; Fill covers the view rectangle; every BoxLayout mutation is tied to a relayout; the remainder loops decrement and are not entered without a fill factor. Exact proportional distribution, pairwise disjointness and nested-layout histories are arithmetic and not decided.",
+        "Trusted: go/ssa.",
+    ),
+})
+
 # id -> reason for properties not (yet) claimed
 NOT_APPLICABLE = {
 }
